@@ -55,7 +55,7 @@ theorem bodyOK_functions (hu : DelimU u) : BodyOK u .w .w (groupFunctionsBody u)
   intro c L L' h hk hi
   unfold groupFunctionsBody at h
   split at h
-  · cases h; exact ⟨hk, hi⟩
+  · cases h; exact ⟨hk, hi, fun _ _ h0 => h0⟩
   · have hpend : ∀ t tok, tokenNextBy u L [] [] Gen.group_functions_token_next_by0_t 0 = some (t, tok) →
         L[t]? = some tok ∧ imt u tok [] [] Gen.group_functions_token_next_by1_t = true :=
       fun t tok hq => pend_of_nextBy _ _ hq
